@@ -165,7 +165,7 @@ func runC07(c *Ctx) {
 			if g, ok := i.(*ssa.Go); ok {
 				gos++
 				okArgs := true
-				for _, a := range g.Call.Args {
+				for _, a := range PArgs(&g.Call) {
 					switch a.Type().Underlying().(type) {
 					case *types.Chan:
 						okArgs = false
@@ -375,7 +375,7 @@ func writesStatus(i ssa.Instruction, code int64) bool {
 		n, ok := ConstInt(Args(cc)[1])
 		return ok && n == code
 	case "net/http.Error":
-		n, ok := ConstInt(cc.Args[2])
+		n, ok := ConstInt(PArgs(cc)[2])
 		return ok && n == code
 	}
 	return false
